@@ -149,7 +149,7 @@ type ExtSpec struct {
 	Kind   int // 0 nil, 1 NoExtension, 2 nycttrips, 3 nyctalerts
 	Trips  nycttrips.ExtensionOpts
 	Alerts nyctalerts.ExtensionOpts
-	TZ     int // 0 nil, 1 UTC, 2 America/New_York
+	TZ     int // 0 nil, 1 UTC, 2 America/New_York, 3-6 fixed zones that share a name with another zone (see Location)
 }
 
 var nyLoc *time.Location
@@ -163,7 +163,7 @@ func init() {
 }
 
 func (s ExtSpec) String() string {
-	tz := []string{"tz=nil", "tz=UTC", "tz=NY"}[s.TZ]
+	tz := []string{"tz=nil", "tz=UTC", "tz=NY", "tz=fixed(local,+5h)", "tz=fixed(local,-3h30)", "tz=fixed(UTC,+2h)", "tz=fixed(,-7h)"}[s.TZ]
 	switch s.Kind {
 	case 0:
 		return "ext=nil," + tz
@@ -195,6 +195,16 @@ func (s ExtSpec) Location() *time.Location {
 		return time.UTC
 	case 2:
 		return nyLoc
+	// distinct location objects whose names coincide (with each other, with UTC, with the empty name): anything
+	// keyed by the zone's name instead of the zone confuses them. A fresh object per call.
+	case 3:
+		return time.FixedZone("local", 5*3600)
+	case 4:
+		return time.FixedZone("local", -3*3600-1800)
+	case 5:
+		return time.FixedZone("UTC", 2*3600)
+	case 6:
+		return time.FixedZone("", -7*3600)
 	}
 	return nil
 }
@@ -207,7 +217,7 @@ func (s ExtSpec) Fresh() *gtfs.ParseRealtimeOptions {
 var dedupPolicies = []nyctalerts.ElevatorAlertsDeduplicationPolicy{nyctalerts.NoDeduplication, nyctalerts.DeduplicateInStation, nyctalerts.DeduplicateInComplex}
 
 func DrawExtSpec(t *sim.T) ExtSpec {
-	s := ExtSpec{Kind: t.Choose(4), TZ: t.Choose(3)}
+	s := ExtSpec{Kind: t.Choose(4), TZ: t.Weighted(3, 3, 3, 1, 1, 1, 1)}
 	switch s.Kind {
 	case 2:
 		s.Trips = nycttrips.ExtensionOpts{FilterStaleUnassignedTrips: t.Chance(1, 2), PreserveMTrainPlatformsInBushwick: t.Chance(1, 2)}
